@@ -272,6 +272,7 @@ def showLit : Val → String
   | .int v => s!"int:{v}"
   | .bool b => s!"bool:{b}"
   | .unit => "unit"
+  | .str s => "str:" ++ hexOf s
   | v => "lit:" ++ showVal v
 
 open RotoV.LowerS in
@@ -283,6 +284,8 @@ def showValue : Value → String
   | .not x => "not " ++ showVar x
   | .neg x => "neg " ++ showVar x
   | .callRt f args => s!"callrt {hostName f} " ++ " ".intercalate (args.map showVar)
+  | .toStr x => "callrt to_string " ++ showVar x
+  | .append a b => s!"callrt append {showVar a} {showVar b}"
   | .call f args => s!"call f{f} " ++ " ".intercalate (args.map showVar)
   | .disc x => "disc " ++ showVar x
   | .cloneProj x i tag => s!"clone {showVar x}.{tagName tag}#{i}"
